@@ -105,6 +105,11 @@ class Fn:
         if isinstance(e, ast.Compare):
             if len(e.ops) != 1:
                 raise Bad("chained comparison")
+            if isinstance(e.ops[0], ast.Eq) and is_const(e.comparators[0], 0):
+                x, t = self.ex(e.left)          # `x == 0` on an array: the exact-zero test (np_isclose0 is read as x = 0 in the model)
+                if t != "nd":
+                    raise Bad("== 0 on " + t)
+                return f"(np_isclose0 {x})", "nd"
             a, ta = self.ex(e.left)
             b, tb = self.ex(e.comparators[0])
             op = {ast.LtE: "np_le", ast.GtE: "np_ge", ast.Lt: "np_lt", ast.Gt: "np_gt"}.get(type(e.ops[0]))
